@@ -3,6 +3,7 @@ package mon
 import (
 	"context"
 	"encoding/base64"
+	"encoding/json"
 	"fmt"
 	"math/rand"
 	"regexp"
@@ -166,6 +167,9 @@ func CheckC11(run *evid.Run) {
 func init() { registerCases("C11", c11Case) }
 
 func c11Case(run *evid.Run, i int, j *Journal) {
+	if i%8 == 3 {
+		c11Legacy(run, i, j)
+	}
 	rng := rand.New(rand.NewSource(run.Seed*8191 + int64(i)*131071))
 	h := hx.Gen(run.Seed, i, hx.GenOpts{MaxSteps: pick(run.Tier, 30, 50), Orders: []string{"hash"}, MaxReplicas: 4,
 		Codecs: []string{[]string{"cbor", "cbor", "cbor", "link"}[i%4]}}) // a same-key reader fetches sealed links
@@ -619,4 +623,87 @@ func clipStr(s string, n int) string {
 		return s[:n] + "\n...[clipped]"
 	}
 	return s
+}
+
+// c11Legacy: a chain of legacy (v0, protobuf-wrapped) blocks loaded with the legacy codec; one block never
+// arrives and a fetch timeout is configured: every request must be issued under a context bounded by the timeout
+// (decided on the contexts the store was handed), the load must come back, with exactly the entries above the gap.
+func c11Legacy(run *evid.Run, i int, j *Journal) {
+	rng := rand.New(rand.NewSource(run.Seed*524287 + int64(i)))
+	w := hx.NewWorld(run.Seed, 1, "A", "hash", "pb")
+	n := 4 + rng.Intn(8)
+	var cids []cid.Cid
+	st := store.New()
+	for k := 0; k < n; k++ {
+		next := []any{}
+		if k > 0 {
+			next = append(next, cids[k-1].String())
+		}
+		v := map[string]any{"hash": nil, "id": "A", "payload": fmt.Sprintf("v0-c11-%d-%d", i, k), "next": next, "v": 0,
+			"clock": map[string]any{"id": v0Key, "time": k}, "key": v0Key, "sig": v0Sig}
+		jb, _ := json.Marshal(v)
+		raw, c := pbBlock(jb)
+		cids = append(cids, c)
+		st.PutRaw(c, raw)
+	}
+	slow := rng.Intn(n - 1) // never the head
+	st.SetFault(cids[slow], store.Hang)
+	st.SetRecord(true)
+	w.Store = st
+	timeout := 400
+	label := fmt.Sprintf("legacy chain of %d blocks, block #%d never arrives, fetch timeout %d ms, legacy codec", n, slow, timeout)
+	j.Log(map[string]any{"case": i, "plan": "legacy-chain-hang+timeout", "detail": label})
+	var loaded *ipfslog.IPFSLog
+	done := make(chan struct{})
+	go func() {
+		defer close(done)
+		loaded, _ = w.LoadHash(cids[n-1], 0, &hx.LoadOpts{TimeoutMs: timeout, Concurrency: []int{0, 1, 2}[rng.Intn(3)], NoExplicit: true})
+	}()
+	run.Count("fetches", 1)
+	run.Count("plan_legacy-chain-hang+timeout", 1)
+	d := det("plan", "legacy-chain-hang+timeout", "codec", "pb", "timeout", true)
+	// wait until the slow block has been requested (or the load is back), then look at the contexts
+	requested := func() (bool, store.Event) {
+		for _, e := range st.Events() {
+			if e.Kind == "get-call" && e.Cid == cids[slow].String() {
+				return true, e
+			}
+		}
+		return false, store.Event{}
+	}
+	for k := 0; k < 600; k++ {
+		if ok, _ := requested(); ok {
+			break
+		}
+		select {
+		case <-done:
+			k = 600
+		case <-time.After(50 * time.Millisecond):
+		}
+	}
+	wit := func() map[string]any {
+		return map[string]any{"scenario": label, "store_events": tailEvents(st.Events(), 40)}
+	}
+	for _, e := range st.Events() {
+		if e.Kind == "get-call" && e.Res != "ctx-done" && (e.DlMs == 0 || e.DlMs > int64(timeout)) {
+			run.Violate("C11/request-not-bounded-by-timeout", d, wit(), "with a timeout of %d ms configured, the legacy codec requested block %s under a context with %s: the configured timeout does not bound the load (%s)",
+				timeout, hx.Short(e.Cid), map[bool]string{true: "no deadline at all", false: fmt.Sprintf("%d ms left until its deadline", e.DlMs)}[e.DlMs == 0], label)
+			return // (the load may never come back: its goroutine is abandoned)
+		}
+	}
+	select {
+	case <-done:
+	case <-time.After(60 * time.Second):
+		run.Inconclusive("legacy load with a timeout did not return within the wall-clock cap although its requests carried deadlines: " + label)
+		return
+	}
+	want := n - 1 - slow
+	got := 0
+	if loaded != nil {
+		got = loaded.Len()
+	}
+	if got != want {
+		run.Violate("C11/reachable-missing", d, wit(), "legacy chain: %d entries loaded, %d lie above the block that never arrives (%s)", got, want, label)
+	}
+	run.NonTrivial(fmt.Sprintf("legacy/%d/%d", n, slow))
 }
